@@ -64,6 +64,8 @@ pub struct NodeBehaviour {
     pub lose_replies: u64,
     /// record returned for distance 0 instead of the node's current one
     pub own_record_override: Option<Vec<u8>>,
+    /// replies are put on the wire this much later (a slow node)
+    pub reply_delay: Duration,
     /// a record (raw bytes, node id) this node slips into its NODES answers whenever its log2
     /// distance from this node is NOT among the requested ones
     pub off_distance_record: Option<(Vec<u8>, Id)>,
@@ -71,7 +73,7 @@ pub struct NodeBehaviour {
 
 impl Default for NodeBehaviour {
     fn default() -> Self {
-        NodeBehaviour { silent: false, respond: true, challenge_unknown: true, answer_whoareyou: true, pong_addr: None, records_per_packet: 3, lose_replies: 0, own_record_override: None, off_distance_record: None }
+        NodeBehaviour { silent: false, respond: true, challenge_unknown: true, answer_whoareyou: true, pong_addr: None, records_per_packet: 3, lose_replies: 0, own_record_override: None, reply_delay: Duration::ZERO, off_distance_record: None }
     }
 }
 
@@ -590,7 +592,14 @@ impl World {
             let (b, _nonce) = self.nodes[i].sim.message(&vid, &r, None);
             self.nodes[i].replies_sent.push((now, r.clone()));
             let gen = self.nodes[i].sim.keys[&vid].len() - 1;
+            let slow = self.nodes[i].b.reply_delay;
+            let before = self.flights.len();
             self.route(true, i, addr, b, Tag::new("message", Some(&r)).with_gen(gen));
+            if slow > Duration::ZERO {
+                for f in self.flights[before..].iter_mut() {
+                    f.due += slow;
+                }
+            }
         }
     }
 
